@@ -4,6 +4,11 @@
   `quotient A (moore A) = some Q` and `checkMinimized A Q = true`).  This is the non-vacuity /
   completeness half of the checker: `check_minimized_sound` can be instantiated for every `A`.
 
+  The quotient context `QCtx A blk nb rep Q` is generic in the numbering: `blk` = new id of every
+  state (all `< nb`), `rep j` = a state of block `j` whose copy becomes state `j` of `Q`.  It is
+  instantiated here with the canonical numbering / smallest representative (`quotient_passes`) and in
+  `Proofs/HopcroftMinimize.lean` with Hopcroft's block ids / `pick_element` (`minimize_passes`).
+
   Outline
   * canonical numbering: `canon l` uses exactly the ids `0 … k-1`, in order of first occurrence
     (`canon_canonical`), so does `moore A` (`moore_canonical`); a canonical duplicate-free list is
@@ -229,17 +234,18 @@ theorem remapLoop_spec (A : Automaton) (blk reps : List Nat) :
         congr 2; omega
 
 /-- what the quotient looks like -/
-structure IsQuot (A : Automaton) (blk : List Nat) (Q : Automaton) : Prop where
-  numStates : Q.numStates = numBlocks blk
-  length : Q.states.length = numBlocks blk
+structure IsQuot (A : Automaton) (blk : List Nat) (nb : Nat) (rep : Nat → Nat) (Q : Automaton) :
+    Prop where
+  numStates : Q.numStates = nb
+  length : Q.states.length = nb
   init : blk[A.initialState]? = some Q.initialState
-  state : ∀ j, j < numBlocks blk → ∃ s, A.states[repOf blk j]? = some s ∧
+  state : ∀ j, j < nb → ∃ s, A.states[rep j]? = some s ∧
     Q.states[j]? = some (qState blk j s)
   counts : Q.numFinalStates = (Q.states.filter (·.isFinal)).length
 
 theorem quotient_eq {A : Automaton} (h : wfAut A = true) {blk : List Nat}
     (hlen : blk.length = A.states.length) (hc : Canonical blk) :
-    ∃ Q, quotient A blk = some Q ∧ IsQuot A blk Q := by
+    ∃ Q, quotient A blk = some Q ∧ IsQuot A blk (numBlocks blk) (repOf blk) Q := by
   have hinit : A.initialState < blk.length := hlen ▸ (wfAut_spec h).2.1
   set reps := (List.range (numBlocks blk)).map (repOf blk) with hreps
   have hloop := remapLoop_spec A blk reps reps 0 0 (fun k hk => by
@@ -361,26 +367,33 @@ theorem wfState_quot {n nb j i : Nat} {s : State} {blk : List Nat}
     | some d => simpa [qState, hd] using hb d (hd1 d hd)
 
 /-- everything known about the block list of `A` and its quotient -/
-structure QCtx (A : Automaton) (blk : List Nat) (Q : Automaton) : Prop where
+structure QCtx (A : Automaton) (blk : List Nat) (nb : Nat) (rep : Nat → Nat) (Q : Automaton) :
+    Prop where
   wfA : wfAut A = true
   len : blk.length = A.states.length
-  canon : Canonical blk
-  isq : IsQuot A blk Q
+  /-- every block id is `< nb` -/
+  blk_lt' : ∀ x, x < A.states.length → blk.getD x 0 < nb
+  /-- `rep j` is a state of block `j` -/
+  rep_lt' : ∀ j, j < nb → rep j < A.states.length
+  blk_rep' : ∀ j, j < nb → blk.getD (rep j) 0 = j
+  isq : IsQuot A blk nb rep Q
 
-theorem QCtx.blk_lt {A Q : Automaton} {blk : List Nat} (cx : QCtx A blk Q) {x : Nat}
-    (hx : x < A.states.length) : blk.getD x 0 < numBlocks blk := by
-  have hx' : x < blk.length := cx.len ▸ hx
-  exact Minimize.blk_lt cx.canon (getElem?_eq_some_getD hx')
+theorem QCtx.blk_lt {A Q : Automaton} {blk : List Nat} {nb : Nat} {rep : Nat → Nat}
+    (cx : QCtx A blk nb rep Q) {x : Nat}
+    (hx : x < A.states.length) : blk.getD x 0 < nb := cx.blk_lt' x hx
 
-theorem QCtx.wfQ {A Q : Automaton} {blk : List Nat} (cx : QCtx A blk Q) : wfAut Q = true := by
+theorem QCtx.wfQ {A Q : Automaton} {blk : List Nat} {nb : Nat} {rep : Nat → Nat} (cx : QCtx A blk nb rep Q) : wfAut Q = true := by
   apply wfAut_of
   · rw [cx.isq.numStates, cx.isq.length]
   · have hi := (wfAut_spec cx.wfA).2.1
     have := cx.isq.init
     rw [cx.isq.length]
-    exact Minimize.blk_lt cx.canon this
+    have hi' : A.initialState < blk.length := cx.len ▸ hi
+    rw [getElem?_eq_some_getD hi'] at this
+    rw [← Option.some.inj this]
+    exact cx.blk_lt hi
   · intro j st hst
-    have hj : j < numBlocks blk := by
+    have hj : j < nb := by
       rw [← cx.isq.length]; exact (List.getElem?_eq_some_iff.1 hst).1
     obtain ⟨s, hs, hq⟩ := cx.isq.state j hj
     rw [hq] at hst
@@ -388,19 +401,16 @@ theorem QCtx.wfQ {A Q : Automaton} {blk : List Nat} (cx : QCtx A blk Q) : wfAut 
     rw [cx.isq.length]
     exact wfState_quot ((wfAut_spec cx.wfA).2.2 _ _ hs) (fun x hx => cx.blk_lt hx)
 
-theorem QCtx.rep_lt {A Q : Automaton} {blk : List Nat} (cx : QCtx A blk Q) {j : Nat}
-    (hj : j < numBlocks blk) : repOf blk j < A.states.length :=
-  cx.len ▸ repOf_lt cx.canon hj
+theorem QCtx.rep_lt {A Q : Automaton} {blk : List Nat} {nb : Nat} {rep : Nat → Nat} (cx : QCtx A blk nb rep Q) {j : Nat}
+    (hj : j < nb) : rep j < A.states.length := cx.rep_lt' j hj
 
-theorem QCtx.blk_rep {A Q : Automaton} {blk : List Nat} (cx : QCtx A blk Q) {j : Nat}
-    (hj : j < numBlocks blk) : blk.getD (repOf blk j) 0 = j := by
-  have := blk_repOf cx.canon hj
-  simp [List.getD_eq_getElem?_getD, this]
+theorem QCtx.blk_rep {A Q : Automaton} {blk : List Nat} {nb : Nat} {rep : Nat → Nat} (cx : QCtx A blk nb rep Q) {j : Nat}
+    (hj : j < nb) : blk.getD (rep j) 0 = j := cx.blk_rep' j hj
 
 /-- `δ_Q(j, c)` is the block of `δ_A(rep j, c)` -/
-theorem QCtx.stepD_quot {A Q : Automaton} {blk : List Nat} (cx : QCtx A blk Q) {j : Nat}
-    (hj : j < numBlocks blk) {c : Nat} (hc : c ≤ MAX_CHAR) :
-    stepD Q j c = blk.getD (stepD A (repOf blk j) c) 0 := by
+theorem QCtx.stepD_quot {A Q : Automaton} {blk : List Nat} {nb : Nat} {rep : Nat → Nat} (cx : QCtx A blk nb rep Q) {j : Nat}
+    (hj : j < nb) {c : Nat} (hc : c ≤ MAX_CHAR) :
+    stepD Q j c = blk.getD (stepD A (rep j) c) 0 := by
   obtain ⟨s, hs, hq⟩ := cx.isq.state j hj
   rw [stepD_eq_raw cx.wfQ hq hc, stepD_eq_raw cx.wfA hs hc]
   have hwfs := (wfAut_spec cx.wfA).2.2 _ _ hs
@@ -413,8 +423,8 @@ theorem QCtx.stepD_quot {A Q : Automaton} {blk : List Nat} (cx : QCtx A blk Q) {
     rw [hk, hk']
     simp [qState, hd]
 
-theorem QCtx.finD_quot {A Q : Automaton} {blk : List Nat} (cx : QCtx A blk Q) {j : Nat}
-    (hj : j < numBlocks blk) : finD Q j = finD A (repOf blk j) := by
+theorem QCtx.finD_quot {A Q : Automaton} {blk : List Nat} {nb : Nat} {rep : Nat → Nat} (cx : QCtx A blk nb rep Q) {j : Nat}
+    (hj : j < nb) : finD Q j = finD A (rep j) := by
   obtain ⟨s, hs, hq⟩ := cx.isq.state j hj
   rw [finD_eq hq, finD_eq hs]
   rfl
@@ -480,28 +490,31 @@ theorem moore_isNerode {A : Automaton} (h : wfAut A = true) : IsNerode A (moore 
   exact moore_block_iff h hs ht
 
 section quot
-variable {A Q : Automaton} {blk : List Nat}
+variable {A Q : Automaton} {blk : List Nat} {nb : Nat} {rep : Nat → Nat}
 
 /-- a state and the representative of its block have the same residual language -/
-theorem QCtx.rep_resid (cx : QCtx A blk Q) (hN : IsNerode A blk) {s : Nat}
+theorem QCtx.rep_resid (cx : QCtx A blk nb rep Q) (hN : IsNerode A blk) {s : Nat}
     (hs : s < A.states.length) :
-    resid A (repOf blk (blk.getD s 0)) = resid A s := by
+    resid A (rep (blk.getD s 0)) = resid A s := by
   have hb := cx.blk_lt hs
   exact (hN _ _ (cx.rep_lt hb) hs).1 (cx.blk_rep hb)
 
-theorem QCtx.finD_blk (cx : QCtx A blk Q) (hN : IsNerode A blk) {s : Nat}
+theorem QCtx.finD_blk (cx : QCtx A blk nb rep Q) (hN : IsNerode A blk) {s : Nat}
     (hs : s < A.states.length) : finD Q (blk.getD s 0) = finD A s := by
   have hb := cx.blk_lt hs
   rw [cx.finD_quot hb]
   exact finD_of_resid_eq cx.wfA (cx.rep_lt hb) hs (cx.rep_resid hN hs)
 
-theorem QCtx.checkHom_quot (cx : QCtx A blk Q) (hN : IsNerode A blk) :
+theorem QCtx.checkHom_quot (cx : QCtx A blk nb rep Q) (hN : IsNerode A blk) :
     checkHom A Q blk (alphabetOf2 A Q) = true := by
   have hle := (alphabet2_covers cx.wfA cx.wfQ).1
   apply checkHom_of cx.len
   · intro t ht
     rw [cx.isq.length]
-    exact (canonical_mem_iff cx.canon t).1 ht
+    obtain ⟨x, hx, rfl⟩ := List.getElem_of_mem ht
+    have hx' : x < A.states.length := cx.len ▸ hx
+    have := cx.blk_lt hx'
+    rwa [List.getD_eq_getElem?_getD, List.getElem?_eq_getElem hx] at this
   · exact cx.isq.init
   · intro s hs
     have hs' : s < blk.length := cx.len ▸ hs
@@ -515,10 +528,14 @@ theorem QCtx.checkHom_quot (cx : QCtx A blk Q) (hN : IsNerode A blk) :
     exact (resid_step_eq cx.wfA (cx.rep_lt hb) hs (cx.rep_resid hN hs) hcm).symm
   · intro t ht
     rw [cx.isq.length] at ht
-    exact (canonical_mem_iff cx.canon t).2 ht
+    have h1 := cx.rep_lt ht
+    have h2 := cx.blk_rep ht
+    have h1' : rep t < blk.length := cx.len ▸ h1
+    rw [List.getD_eq_getElem?_getD, List.getElem?_eq_getElem h1'] at h2
+    exact List.mem_of_getElem (Option.some.inj (by simpa using h2) : blk[rep t] = t)
 
 /-- reading a well-formed string in `Q` from the block of `s` = block of reading it in `A` -/
-theorem QCtx.run_quot (cx : QCtx A blk Q) (hN : IsNerode A blk) {s : Nat}
+theorem QCtx.run_quot (cx : QCtx A blk nb rep Q) (hN : IsNerode A blk) {s : Nat}
     (hs : s < A.states.length) {w : List Nat} (hw : WFs w) :
     runD Q (blk.getD s 0) w = blk.getD (runD A s w) 0 := by
   have hs' : s < blk.length := cx.len ▸ hs
@@ -527,7 +544,7 @@ theorem QCtx.run_quot (cx : QCtx A blk Q) (hN : IsNerode A blk) {s : Nat}
   rw [getElem?_eq_some_getD hr] at this
   exact (Option.some.inj this).symm
 
-theorem QCtx.resid_quot (cx : QCtx A blk Q) (hN : IsNerode A blk) {s : Nat}
+theorem QCtx.resid_quot (cx : QCtx A blk nb rep Q) (hN : IsNerode A blk) {s : Nat}
     (hs : s < A.states.length) : resid Q (blk.getD s 0) = resid A s := by
   ext w
   have hb : blk.getD s 0 < Q.states.length := cx.isq.length ▸ cx.blk_lt hs
@@ -541,8 +558,8 @@ theorem QCtx.resid_quot (cx : QCtx A blk Q) (hN : IsNerode A blk) {s : Nat}
     exact ⟨hw, hf⟩
 
 /-- distinct states of the quotient have distinct residual languages -/
-theorem QCtx.reduced (cx : QCtx A blk Q) (hN : IsNerode A blk) {j j' : Nat}
-    (hj : j < numBlocks blk) (hj' : j' < numBlocks blk) (he : resid Q j = resid Q j') :
+theorem QCtx.reduced (cx : QCtx A blk nb rep Q) (hN : IsNerode A blk) {j j' : Nat}
+    (hj : j < nb) (hj' : j' < nb) (he : resid Q j = resid Q j') :
     j = j' := by
   have h1 := cx.resid_quot hN (cx.rep_lt hj)
   have h2 := cx.resid_quot hN (cx.rep_lt hj')
@@ -552,7 +569,7 @@ theorem QCtx.reduced (cx : QCtx A blk Q) (hN : IsNerode A blk) {j j' : Nat}
   rwa [cx.blk_rep hj, cx.blk_rep hj'] at this
 
 /-- the Moore partition of the quotient is discrete -/
-theorem QCtx.discrete (cx : QCtx A blk Q) (hN : IsNerode A blk) :
+theorem QCtx.discrete (cx : QCtx A blk nb rep Q) (hN : IsNerode A blk) :
     isDiscrete (moore Q) = true := by
   have hQ := cx.wfQ
   have hlen := moore_length hQ
@@ -691,9 +708,9 @@ end union
 /-! ### the checker's search finds the block map -/
 
 section search
-variable {A Q : Automaton} {blk : List Nat}
+variable {A Q : Automaton} {blk : List Nat} {nb : Nat} {rep : Nat → Nat}
 
-theorem QCtx.union_left (cx : QCtx A blk Q) (hN : IsNerode A blk) {s : Nat}
+theorem QCtx.union_left (cx : QCtx A blk nb rep Q) (hN : IsNerode A blk) {s : Nat}
     (hs : s < A.states.length) :
     (unionBlocks A Q).getD s 0 =
       (unionBlocks A Q).getD (A.states.length + blk.getD s 0) 0 := by
@@ -703,7 +720,7 @@ theorem QCtx.union_left (cx : QCtx A blk Q) (hN : IsNerode A blk) {s : Nat}
   have hW := wfs_of_alphabet (alphabet2_covers cx.wfA cx.wfQ).1 hw
   rw [cx.run_quot hN hs hW, cx.finD_blk hN (runD_lt cx.wfA hs hW)]
 
-theorem QCtx.union_right_inj (cx : QCtx A blk Q) (hN : IsNerode A blk) {j j' : Nat}
+theorem QCtx.union_right_inj (cx : QCtx A blk nb rep Q) (hN : IsNerode A blk) {j j' : Nat}
     (hj : j < Q.states.length) (hj' : j' < Q.states.length)
     (he : (unionBlocks A Q).getD (A.states.length + j) 0 =
       (unionBlocks A Q).getD (A.states.length + j') 0) : j = j' := by
@@ -719,7 +736,7 @@ theorem QCtx.union_right_inj (cx : QCtx A blk Q) (hN : IsNerode A blk) {j j' : N
   · rw [← this]; exact hf
   · rw [this]; exact hf
 
-theorem QCtx.findHom_quot (cx : QCtx A blk Q) (hN : IsNerode A blk) :
+theorem QCtx.findHom_quot (cx : QCtx A blk nb rep Q) (hN : IsNerode A blk) :
     findHom A Q = some blk := by
   have hul := unionBlocks_length cx.wfA cx.wfQ
   set ub := unionBlocks A Q with hub
@@ -777,7 +794,16 @@ theorem quotient_passes {A : Automaton} (h : wfAut A = true) :
     ∃ Q, quotient A (moore A) = some Q ∧ checkMinimized A Q = true ∧
       Q.numStates = numBlocks (moore A) := by
   obtain ⟨Q, hq, isq⟩ := quotient_eq h (moore_length h) (moore_canonical A)
-  have cx : QCtx A (moore A) Q := ⟨h, moore_length h, moore_canonical A, isq⟩
+  have hcan := moore_canonical A
+  have hlen := moore_length h
+  have cx : QCtx A (moore A) (numBlocks (moore A)) (repOf (moore A)) Q :=
+    ⟨h, hlen,
+      fun x hx => Minimize.blk_lt hcan (getElem?_eq_some_getD (hlen ▸ hx)),
+      fun j hj => hlen ▸ repOf_lt hcan hj,
+      fun j hj => by
+        have := blk_repOf hcan hj
+        simp [List.getD_eq_getElem?_getD, this],
+      isq⟩
   have hN := moore_isNerode h
   refine ⟨Q, hq, ?_, isq.numStates⟩
   unfold checkMinimized
